@@ -6,8 +6,11 @@ followed by <= 3 API steps; a step is a Table / MatrixTable method (annotate, se
 filter, drop, explode, annotate_globals, aggregate; annotate_rows/cols/entries, select_entries, filter_rows,
 rows()/cols()/entries() ...) whose argument is one expression template from a catalog (arithmetic with type
 promotion, comparisons, casts, conditionals, collection / struct / tuple / dict / string / locus / call /
-interval builders, lambdas, aggregators, scans, hl.literal(v) over a value domain) applied to one field of the
-current dataset.  Programs are explored as a prefix tree (every node of the tree is one program).
+interval builders, lambdas, aggregators, scans, hl.literal(v) over a value domain; and the JOIN / INDEX family:
+t[expr], t.index(expr, all_matches=True/False), index_globals(), mt.index_rows/cols/entries, semi_join / anti_join
+against lookup tables keyed by a point key, a single interval<int32> / interval<locus> key and compound keys, from
+Table rows and MatrixTable rows / cols / entries, consumed by annotate / select / filter of each axis) applied to one
+field of the current dataset.  Programs are explored as a prefix tree (every node of the tree is one program).
 
 Oracle, on every program the front end accepts:
   * the argument expression e:  e.dtype  ==  the type recomputed from scratch by the IR's own per-node inference
@@ -15,6 +18,10 @@ Oracle, on every program the front end accepts:
     again); at EVERY sub-node the type the front end had assigned == the type the node infers from its children;
     every variable reference's declared type == the type its binder gives it (typed child_context, the metadata
     the renderer uses) under the dataset's environment,
+  * inside the whole relational IR of every resulting dataset, every reference to row / global / va / sa / g -- in
+    particular a field added by a join node (TableLeftJoinRightDistinct / TableIntervalJoin / MatrixAnnotateRowsTable /
+    MatrixAnnotateColsTable), whose type the front end merely ASSERTS on its ProjectedTopLevelReference -- has the type
+    that the emitted join node really binds (re-inferred, product flag included),
   * the resulting dataset: row / global / key (and col / entry) types and key names reported by the front end
     == the type recomputed the same way by TableIR/MatrixIR._compute_type over the whole relational IR;
     every field expression ds[f].dtype == that type's field; the new field's dtype == e.dtype,
@@ -410,6 +417,7 @@ def catalog(hl):
         ('agg_downsample', 'agg', num, lambda u: hl.agg.downsample(u, u, n_divisions=2)),
         ('agg_ndarray_sum', 'agg', numarr, lambda u: hl.agg.ndarray_sum(hl.nd.array(u))),
     ]
+    T += join_templates(hl)
     names = [t[0] for t in T]
     if len(set(names)) != len(names):
         raise HarnessGap('duplicate template names')
@@ -417,7 +425,83 @@ def catalog(hl):
 
 
 MINI_TEMPLATES = ('truediv', 'to_str', 'arr_of', 'struct_of', 'map_struct', 'idx0', 'field0', 'lt1', 'agg_collect', 'if_missing')
-MINI_LITS = ('int', 'str', 'list_int_none', 'struct_nested', 'dict_str_int')
+MINI_LITS = ('int', 'list_int_none', 'struct_nested')
+def lookup_tables(hl):
+    """tables / matrix tables that the JOIN / INDEX family looks things up in (built once per process)"""
+    if 'aux' in _state:
+        return _state['aux']
+    P = hl.utils.range_table(4).annotate_globals(pg=hl.struct(a=1, b=['x']))
+    P = P.annotate(pv=hl.str(P.idx), pw=[P.idx])
+    iv = hl.tinterval(hl.tint32)
+    I = hl.Table.parallelize([{'iv': hl.Interval(0, 2), 'w': 'a', 'n': 1}, {'iv': hl.Interval(1, 5), 'w': None, 'n': 2}],
+                             hl.tstruct(iv=iv, w=hl.tstr, n=hl.tint32), key='iv')
+    lt = hl.tinterval(hl.tlocus('GRCh37'))
+    L = hl.Table.parallelize([{'liv': hl.Interval(hl.Locus('1', 1), hl.Locus('1', 100)), 'lw': 1.5}],
+                             hl.tstruct(liv=lt, lw=hl.tfloat64), key='liv')
+    C = hl.Table.parallelize([{'k1': 1, 'k2': '1', 'cv': [1.5]}, {'k1': 1, 'k2': '2', 'cv': None}],
+                             hl.tstruct(k1=hl.tint32, k2=hl.tstr, cv=hl.tarray(hl.tfloat64)), key=['k1', 'k2'])
+    IC = hl.Table.parallelize([{'iv': hl.Interval(0, 2), 'k2': 'a', 'icv': 1}],
+                              hl.tstruct(iv=iv, k2=hl.tstr, icv=hl.tint32), key=['iv', 'k2'])
+    M = hl.utils.range_matrix_table(3, 3)
+    M = M.annotate_rows(rv=hl.str(M.row_idx))
+    M = M.annotate_cols(cv=[M.col_idx])
+    M = M.annotate_entries(ev=M.row_idx / 2)
+    M = M.annotate_globals(mg=(1, 'a'))
+    _state['aux'] = {'P': P, 'I': I, 'L': L, 'C': C, 'IC': IC, 'M': M}
+    return _state['aux']
+
+
+def join_templates(hl):
+    """the JOIN / INDEX family: kind 'j' lookup expressions keyed by an int32 field u of the current dataset (u itself, which
+    may be the dataset's key, or u + 1, a foreign key), kind 'jb' = is_defined(lookup) for filters"""
+    from hail.expr.types import tint32
+
+    def i32(t):
+        return t == tint32
+
+    def A():
+        return lookup_tables(hl)
+
+    def loc(u):
+        return hl.locus('1', u + 1)
+
+    base = [
+        ('P_get', lambda k: A()['P'][k]),
+        ('P_index', lambda k: A()['P'].index(k)),
+        ('P_index_all', lambda k: A()['P'].index(k, all_matches=True)),
+        ('P_get_field', lambda k: A()['P'][k].pw),
+        ('I_get', lambda k: A()['I'][k]),
+        ('I_index', lambda k: A()['I'].index(k, all_matches=False)),
+        ('I_index_all', lambda k: A()['I'].index(k, all_matches=True)),
+        ('I_index_all_field', lambda k: A()['I'].index(k, all_matches=True).w),
+        ('I_by_interval', lambda k: A()['I'][hl.interval(k, k + 1)]),
+        ('L_get', lambda k: A()['L'][loc(k)]),
+        ('L_index_all', lambda k: A()['L'].index(loc(k), all_matches=True)),
+        ('C_get', lambda k: A()['C'][k, hl.str(k)]),
+        ('C_index_all', lambda k: A()['C'].index(k, hl.str(k), all_matches=True)),
+        ('C_get_struct', lambda k: A()['C'][hl.struct(k1=k, k2=hl.str(k))]),
+        ('C_prefix', lambda k: A()['C'][k]),
+        ('IC_index_all', lambda k: A()['IC'].index(k, hl.str(k), all_matches=True)),
+        ('M_index_rows', lambda k: A()['M'].index_rows(k)),
+        ('M_index_rows_all', lambda k: A()['M'].index_rows(k, all_matches=True)),
+        ('M_index_cols', lambda k: A()['M'].index_cols(k)),
+        ('M_index_cols_all', lambda k: A()['M'].index_cols(k, all_matches=True)),
+        ('M_index_entries', lambda k: A()['M'].index_entries(k, k)),
+        ('M_rows_get', lambda k: A()['M'].rows()[k]),
+        ('M_entries_get', lambda k: A()['M'].entries()[k, k]),
+    ]
+    out = []
+    for name, f in base:
+        out.append((f'j_{name}', 'j', i32, lambda u, f=f: f(u)))
+        out.append((f'j_{name}_fk', 'j', i32, lambda u, f=f: f(u + 1)))
+        out.append((f'jb_{name}', 'jb', i32, lambda u, f=f: hl.is_defined(f(u))))
+        out.append((f'jb_{name}_fk', 'jb', i32, lambda u, f=f: hl.is_defined(f(u + 1))))
+    out.append(('j_P_index_globals', 'j', i32, lambda u: A()['P'].index_globals()))
+    out.append(('j_P_index_globals_field', 'j', i32, lambda u: A()['P'].index_globals().pg.b))
+    out.append(('j_M_index_globals', 'j', i32, lambda u: A()['M'].index_globals()))
+    return out
+
+
 CORE_TEMPLATES = ('add1', 'truediv', 'to_str', 'arr_of', 'struct_of', 'if_missing', 'map_struct', 'idx0', 'field0', 'lt1',
                   'is_defined', 'dict_of', 'len', 'sorted', 'agg_collect', 'agg_sum', 'scan_count', 'keys', 'tuple_of',
                   'if_coerce', 'eq_self')
@@ -544,6 +628,29 @@ def check_refs(root, ctx):
     stack = [(root, ctx)]
     while stack:
         x, c = stack.pop()
+        if isinstance(x, I.ProjectedTopLevelReference):
+            # GetField <field> (Ref <name>) with a type ASSERTED by the front end (the field a join node adds): compare with
+            # the type the enclosing relational node really gives that field
+            ev = c[0] or {}
+            st = ev.get(x.ref.name)
+            if st is not None and x.field in st:
+                if x._typ is not None and st[x.field] != x._typ:
+                    problems.append(('joined-field', x.ref.name,
+                                     f'{x.ref.name}.{x.field}: the front end asserts {x._typ}, the IR binds it as {st[x.field]}'))
+            else:
+                unknown += 1
+            continue
+        if isinstance(x, I.SelectedTopLevelReference):
+            ev = c[0] or {}
+            st = ev.get(x.ref.name)
+            if st is not None and x._typ is not None and all(f in st for f in x._typ.fields):
+                for f in x._typ.fields:
+                    if st[f] != x._typ[f]:
+                        problems.append(('selected-field', x.ref.name,
+                                         f'{x.ref.name}.{f}: the front end asserts {x._typ[f]}, the IR binds it as {st[f]}'))
+            else:
+                unknown += 1
+            continue
         if isinstance(x, I.Ref):
             ev = c[0] or {}
             if x.name in ev and ev[x.name] is not None and x._typ is not None and x._typ != ev[x.name]:
@@ -614,6 +721,10 @@ def check_value(acc, r, shown, prog, what):
     t, probs = reinfer(r._ir)
     for k, node, detail in probs:
         acc.violation(f'ir-{k}-type-disagrees:{node}:{what}', f'{what}: {detail}; ir={str(r._ir)[:400]}', prog)
+    rp, unknown = check_refs(r._ir, ({}, None, None))
+    acc.inc('dataset_refs_without_typed_binding', unknown)
+    for k, node, detail in rp:
+        acc.violation(f'{k}-type-vs-relational-ir:{node}', f'{what}: {detail}; ir={str(r._ir)[:600]}', prog)
     if t is not None and (t != r.dtype or (shown is not None and r.dtype != shown)):
         acc.violation(f'result-type:{what}', f'{what} reports {r.dtype}, argument expression {shown}, IR infers {t}', prog)
 
@@ -626,6 +737,15 @@ def _count_nodes(x):
     return n
 
 
+def check_dataset_refs(acc, rel_ir, prog, op):
+    """inside the whole relational IR of a dataset: every reference to row / global / va / sa / g (in particular the fields
+    that join nodes add, whose type the front end merely asserts) has the type the enclosing relational node binds"""
+    probs, unknown = check_refs(rel_ir, ({}, None, None))
+    acc.inc('dataset_refs_without_typed_binding', unknown)
+    for k, node, detail in probs:
+        acc.violation(f'{k}-type-vs-relational-ir:{node}', f'{op}: {detail}; ir={str(rel_ir)[:600]}', prog)
+
+
 def check_table(acc, ds, prog, op, new=None):
     acc.inc('datasets_checked')
     t, probs = reinfer(ds._tir)
@@ -633,6 +753,7 @@ def check_table(acc, ds, prog, op, new=None):
         acc.violation(f'table-ir-{k}-type-disagrees:{node}:{op}', f'{op}: {detail}; ir={str(ds._tir)[:500]}', prog)
     if t is None:
         return
+    check_dataset_refs(acc, ds._tir, prog, op)
     rep = (ds.row.dtype, ds.globals.dtype, list(ds.key.keys()), ds.key.dtype)
     ir_ = (t.row_type, t.global_type, list(t.row_key), t.key_type)
     if rep != ir_:
@@ -658,6 +779,7 @@ def check_mt(acc, ds, prog, op, new=None):
         acc.violation(f'matrix-ir-{k}-type-disagrees:{node}:{op}', f'{op}: {detail}; ir={str(ds._mir)[:500]}', prog)
     if t is None:
         return
+    check_dataset_refs(acc, ds._mir, prog, op)
     rep = (ds.row.dtype, ds.col.dtype, ds.entry.dtype, ds.globals.dtype, list(ds.row_key.keys()), list(ds.col_key.keys()),
            ds.row_key.dtype, ds.col_key.dtype)
     ir_ = (t.row_type, t.col_type, t.entry_type, t.global_type, list(t.row_key), list(t.col_key), t.row_key_type, t.col_key_type)
@@ -693,6 +815,7 @@ def _tmpl_sets(level):
     """which templates / literals each op may use at this richness level ('full' | 'core')"""
     hl = _hl()
     if 'cat' not in _state:
+        lookup_tables(hl)          # built here, outside any try, so that a mistake in them is a harness error
         _state['cat'] = catalog(hl)
         _state['dom'] = value_domain(hl)
     cat = _state['cat']
@@ -739,6 +862,21 @@ def steps_for(ds, kind, level, fresh=None):
                 out.append((op, name, f))
         for name, f in applicable(cat, row_fields, ('b',)):
             out.append(('filter', name, f))
+        if level == 'full' and fresh is not None:
+            # deeper steps: the lookups keyed by a field an earlier step created, consumed by annotate only
+            for name, f in applicable(cat, row_fields, ('j',)):
+                if not name.endswith('_fk'):
+                    out.append(('annotate', name, f))
+        if level == 'full' and fresh is None:
+            for name, f in applicable(cat, row_fields, ('j',)):
+                out.append(('annotate', name, f))
+                out.append(('select', name, f))
+            for name, f in applicable(cat, row_fields, ('jb',)):
+                out.append(('filter', name, f))
+        if level == 'full':
+            for aux in ('P', 'C', 'I'):
+                out.append(('semi_join', aux))
+                out.append(('anti_join', aux))
         for f, _ in row_fields:
             out.append(('key_by_field', f))
         out.append(('key_by_none',))
@@ -787,6 +925,36 @@ def steps_for(ds, kind, level, fresh=None):
             out.append(('filter_cols', name, f))
         for name, f in applicable(core_cat, row_fields + col_fields + entry_fields, ('b',)):
             out.append(('filter_entries', name, f))
+        if level == 'full' and fresh is not None:
+            for name, f in applicable(cat, row_fields, ('j',)):
+                if not name.endswith('_fk'):
+                    out.append(('annotate_rows', name, f))
+            for name, f in applicable(cat, col_fields, ('j',)):
+                if not name.endswith('_fk'):
+                    out.append(('annotate_cols', name, f))
+            for name, f in applicable(cat, entry_fields, ('j',)):
+                if not name.endswith('_fk'):
+                    out.append(('annotate_entries', name, f))
+        if level == 'full' and fresh is None:
+            for name, f in applicable(cat, row_fields, ('j',)):
+                out.append(('annotate_rows', name, f))
+                out.append(('select_rows', name, f))
+            for name, f in applicable(cat, row_fields, ('jb',)):
+                out.append(('filter_rows', name, f))
+            for name, f in applicable(cat, col_fields, ('j',)):
+                out.append(('annotate_cols', name, f))
+                out.append(('select_cols', name, f))
+            for name, f in applicable(cat, col_fields, ('jb',)):
+                out.append(('filter_cols', name, f))
+            for name, f in applicable(cat, row_fields + col_fields + entry_fields, ('j',)):
+                out.append(('annotate_entries', name, f))
+                out.append(('select_entries', name, f))
+            for name, f in applicable(cat, row_fields + col_fields + entry_fields, ('jb',)):
+                out.append(('filter_entries', name, f))
+        if level == 'full':
+            for aux in ('P', 'C'):
+                out += [('semi_join_rows_aux', aux), ('anti_join_rows_aux', aux), ('semi_join_cols_aux', aux),
+                        ('anti_join_cols_aux', aux)]
         for name, f in applicable(cat, entry_fields + row_fields, ('agg',)):
             out.append(('annotate_rows_agg', name, f))
         for name, f in applicable(core_cat, entry_fields + col_fields, ('agg',)):
@@ -864,6 +1032,10 @@ def apply_step(acc, ds, kind, step, depth, prog):
             return new, 'ht'
         if op == 'to_matrix_like':
             new = ds.annotate(**{nm: hl.range(2)}).explode(nm)
+        elif op == 'semi_join':
+            new = ds.semi_join(lookup_tables(hl)[step[1]])
+        elif op == 'anti_join':
+            new = ds.anti_join(lookup_tables(hl)[step[1]])
         elif op == 'key_by_field':
             new = ds.key_by(step[1])
         elif op == 'key_by_none':
@@ -973,6 +1145,10 @@ def apply_step(acc, ds, kind, step, depth, prog):
         'semi_join_rows': lambda: ds.semi_join_rows(ds.rows()),
         'entry_index_self': lambda: ds.annotate_entries(**{nm: ds.select_entries(**{nm: 1})[ds.row_key, ds.col_key]}),
         'rename_entry': lambda: ds.rename({ef[0]: nm}),
+        'semi_join_rows_aux': lambda: ds.semi_join_rows(lookup_tables(hl)[step[1]]),
+        'anti_join_rows_aux': lambda: ds.anti_join_rows(lookup_tables(hl)[step[1]]),
+        'semi_join_cols_aux': lambda: ds.semi_join_cols(lookup_tables(hl)[step[1]]),
+        'anti_join_cols_aux': lambda: ds.anti_join_cols(lookup_tables(hl)[step[1]]),
     }
     if op in to_mt:
         new = to_mt[op]()
@@ -1191,6 +1367,7 @@ def check_literals(acc):
 PLANS = {
     # name: (levels, fresh_from, dedupe, count_from)
     'q2': (('full', 'full'), 2, True, 1),
+    'q2j': (('full', 'core'), 2, True, 1),      # below a 1st step of the JOIN / INDEX family: core catalogue at step 2
     'q3': (('mini', 'mini', 'mini'), 2, True, 3),
     't2': (('full', 'full'), 99, False, 1),
     't3': (('full', 'core', 'mini'), 2, True, 3),
@@ -1268,8 +1445,9 @@ def check(tier, seed, procs):
                         acc.inc('expansions_skipped_same_schema')
                         continue
                     seen.add(sig)
-                jobs.append((i, plan_name, step))
-            reps_info[f'{name}:{plan_name}'] = len([j for j in jobs if j[0] == i and j[1] == plan_name])
+                is_join = len(step) > 1 and isinstance(step[1], str) and step[1].startswith(('j_', 'jb_'))
+                jobs.append((i, 'q2j' if plan_name == 'q2' and is_join else plan_name, step))
+            reps_info[f'{name}:{plan_name}'] = len([j for j in jobs if j[0] == i and j[1] in (plan_name, plan_name + 'j')])
     ordered = par.rotate(jobs, seed)
     rows = par.pmap(_job, ordered, procs, chunksize=max(1, len(ordered) // (procs * 16)))
     total = dict(acc.c)
@@ -1293,8 +1471,9 @@ def check(tier, seed, procs):
                 'where the front end\'s type was compared with the type recomputed by the IR\'s own inference',
         'samples': samples,
         'exhaustive': True,
-        'bounds': {'quick': 'every 1-step program (full catalogue over every field); every 2-step program whose 2nd step applies the full '
-                            'catalogue to the fields the 1st step created, a dataset being expanded once per distinct schema; every 3-step '
+        'bounds': {'quick': 'every 1-step program (full catalogue over every field, incl. the JOIN/INDEX family); every 2-step program whose '
+                            '2nd step applies the full catalogue (core catalogue below a join step) to the fields the 1st step created, '
+                            'a dataset being expanded once per distinct schema; every 3-step '
                             'program over the mini catalogue (same reduction), only its 3-step programs counted',
                    'thorough': 'every program of <= 2 steps with the full catalogue over every field (no reduction); every 3-step program '
                                'whose 1st step is from the full catalogue and whose 2nd / 3rd steps apply the core / mini catalogue to fields '
@@ -1310,6 +1489,8 @@ def check(tier, seed, procs):
         'expressions_checked': total.get('expressions_checked', 0),
         'ir_nodes_checked': total.get('ir_nodes_checked', 0),
         'refs_without_typed_binding': total.get('refs_without_typed_binding', 0),
+        'dataset_refs_without_typed_binding': total.get('dataset_refs_without_typed_binding', 0),
+        'join_programs_accepted': sum(v for k, v in total.items() if k.startswith('accepted_step:') and (':j_' in k or ':jb_' in k or 'semi_join' in k or 'anti_join' in k)),
         'datasets_checked': total.get('datasets_checked', 0),
         'aggregate_results_checked': total.get('aggregate_results', 0),
         'literal_values': total.get('literal_values', 0),
